@@ -1,5 +1,103 @@
-(* C16 - property theorems only *)
-From VT Require Import Check.C16Check.
-Theorem C16_placeholder : forall h : hcase, c16_eval h = c16_eval h.
-Proof. reflexivity. Qed.
-Print Assumptions C16_placeholder.
+(* C16 - property theorems only.  The session store is keyed as the code keys it: by
+   (transport, namespace); sess_at s e n is what is stored there.  no_save_actions c: handlers do
+   not call save_session themselves (saves are the explicit operations of the history);
+   untouched: no operation of the history saves on that (transport, namespace) pair or ends
+   that transport. *)
+From VT Require Import Server.Sessions.
+
+Theorem C16_get_after_save : forall sid v pns s e,
+  eio_from_sid (mg s) sid (ns_or_default pns) = Some e -> In e (live s) ->
+  let s1 := put_sess s e (ns_or_default pns) v in
+  api_save_session sid v pns s = (s1, [], Ok tt) /\
+  api_get_session sid pns s1 = (s1, [], Ok v) /\
+  sess_at s1 e (ns_or_default pns) = Some v.
+Proof. exact C16_get_after_save_lemma. Qed.
+Print Assumptions C16_get_after_save.
+
+Theorem C16_value_persists : forall c sid v pns s e ops,
+  no_save_actions c ->
+  eio_from_sid (mg s) sid (ns_or_default pns) = Some e -> In e (live s) ->
+  let s1 := fst (fst (api_save_session sid v pns s)) in
+  untouched c s1 ops e (ns_or_default pns) ->
+  let s2 := fst (run c s1 ops) in
+  sess_at s2 e (ns_or_default pns) = Some v /\
+  (eio_from_sid (mg s2) sid (ns_or_default pns) = Some e -> In e (live s2) ->
+   api_get_session sid pns s2 = (s2, [], Ok v)).
+Proof. exact C16_value_persists_lemma. Qed.
+Print Assumptions C16_value_persists.
+
+Theorem C16_stable : forall c, no_save_actions c -> forall e n (P : option pv -> Prop),
+  (P None -> P (Some (PDict []))) -> forall s o,
+  ~ touches s o e n -> P (sess_at s e n) -> P (sess_at (fst (step c s o)) e n).
+Proof. exact C16_stable_lemma. Qed.
+Print Assumptions C16_stable.
+
+Theorem C16_context_manager_persists : forall c sid pns k v s e,
+  eio_from_sid (mg s) sid (ns_or_default pns) = Some e -> In e (live s) ->
+  let d := sess_val s e (ns_or_default pns) in
+  let s1 := fst (step c s (ApiSessionSet sid pns k v)) in
+  snd (step c s (ApiSessionSet sid pns k v)) = [] /\
+  sess_at s1 e (ns_or_default pns) = Some (dict_set d k v) /\
+  api_get_session sid pns s1 = (s1, [], Ok (dict_set d k v)).
+Proof. exact C16_context_manager_lemma. Qed.
+Print Assumptions C16_context_manager_persists.
+
+Theorem C16_isolation : forall sid v pns sid' pns' s,
+  let s1 := fst (fst (api_save_session sid v pns s)) in
+  (eio_from_sid (mg s) sid' (ns_or_default pns') <> eio_from_sid (mg s) sid (ns_or_default pns) \/
+   ns_or_default pns' <> ns_or_default pns) ->
+  snd (api_get_session sid' pns' s1) = snd (api_get_session sid' pns' s).
+Proof. exact C16_isolation_lemma. Qed.
+Print Assumptions C16_isolation.
+
+Theorem C16_isolation_store : forall sid v pns s e e' n',
+  eio_from_sid (mg s) sid (ns_or_default pns) = Some e -> In e (live s) ->
+  (e' <> e \/ n' <> ns_or_default pns) ->
+  sess_at (fst (fst (api_save_session sid v pns s))) e' n' = sess_at s e' n'.
+Proof. exact Sessions.C16_isolation_store. Qed.
+Print Assumptions C16_isolation_store.
+
+Theorem C16_destroyed_on_transport_end : forall c s e reason,
+  cfg_ok c -> Inv s -> In e (live s) ->
+  let s' := fst (step c s (EioClose e reason)) in
+  ~ In e (map fst (sessions s')) /\ forall n, sess_at s' e n = None.
+Proof. exact C16_destroyed_lemma. Qed.
+Print Assumptions C16_destroyed_on_transport_end.
+
+Theorem C16_fresh_refuted :
+  exists c ops newsid v,
+    no_save_actions c /\ Forall op_ok ops /\
+    sids_of_eio (mg (fst (run c srv_init ops))) y_e1 = [newsid] /\ newsid <> sid_name 0 /\
+    last (snd (run c srv_init ops)) [] = [Ret v] /\ v <> PDict [].
+Proof. exact C16_fresh_refuted_lemma. Qed.
+Print Assumptions C16_fresh_refuted.
+
+Theorem C16_fresh_except : forall sid pns s e,
+  eio_from_sid (mg s) sid (ns_or_default pns) = Some e -> In e (live s) ->
+  sess_empty s e (ns_or_default pns) ->
+  snd (api_get_session sid pns s) = Ok (PDict []).
+Proof. exact C16_fresh_except_lemma. Qed.
+Print Assumptions C16_fresh_except.
+
+Theorem C16_new_transport_empty : forall c s e env n,
+  Inv s -> ~ In e (live s) -> sess_at (fst (step c s (EioConnect e env))) e n = None.
+Proof. exact C16_new_transport_empty_lemma. Qed.
+Print Assumptions C16_new_transport_empty.
+
+Theorem C16_fresh_new_transport : forall c s e env n ops sid,
+  no_save_actions c -> Inv s -> ~ In e (live s) ->
+  let s1 := fst (step c s (EioConnect e env)) in
+  untouched c s1 ops e n ->
+  let s2 := fst (run c s1 ops) in
+  eio_from_sid (mg s2) sid n = Some e -> In e (live s2) -> n <> [] ->
+  snd (api_get_session sid (Some n) s2) = Ok (PDict []).
+Proof. exact C16_fresh_new_transport_lemma. Qed.
+Print Assumptions C16_fresh_new_transport.
+
+Theorem C16_example :
+  let s1 := fst (fst (api_save_session (sid_name 0) y_secret None y_state)) in
+  api_get_session (sid_name 0) None s1 = (s1, [], Ok y_secret) /\
+  snd (api_get_session (sid_name 1) (Some y_nsa) s1) = Ok (PDict []) /\
+  snd (api_get_session (sid_name 2) None s1) = Ok (PDict []).
+Proof. exact y_get_after_save. Qed.
+Print Assumptions C16_example.
